@@ -436,10 +436,11 @@ class Simplifier(pysmt.walkers.DagWalker):
         else:
             if len(new_args) == 0:
                 return const
-            elif not const.is_one():
-                new_args.append(const)
-
+        # The constant factor (if any) comes last, whatever the creation
+        # order of the nodes: walk_plus relies on this position
         new_args = sorted(new_args, key=FNode.node_id)
+        if not const.is_one():
+            new_args.append(const)
         return self.manager.Times(new_args)
 
     def walk_pow(self, formula: FNode, args: List[FNode], **kwargs) -> FNode:
